@@ -42,6 +42,9 @@ def main():
     sub = PKGDIR.get(pkg, ".")
     tests = re.findall(r"^func (Test\w+)\(", demo_src, re.M)
     runre = "^(" + "|".join(tests) + ")$"
+    def opt(name):
+        return sys.argv[sys.argv.index(name) + 1] if name in sys.argv else None
+    delay, delay_base = opt("--delay"), opt("--delay-base")
     race = ["-race"] if ("--race" in sys.argv or "-race" in demo_src.split("package ")[0]) else []
     wt = tempfile.mkdtemp(prefix="seedeval-", dir="/tmp")
     os.rmdir(wt)
@@ -50,9 +53,14 @@ def main():
         assert rc == 0, o
         dst = os.path.join(wt, sub, f"zz_seed_demo_{n}_test.go")
         shutil.copy(demo, dst)
+        if delay_base:
+            rc, o = run(["git", "apply", "--whitespace=nowarn", delay_base], wt)
+            out["delay_base_applies"] = rc == 0
         rc, o = run(["go", "test"] + race + ["-vet=off", "-count=1", "-run", runre, "./" + sub], wt, 600)
         out["demo_without_patch"] = "pass" if rc == 0 else "FAIL"
         out["demo_without_tail"] = o[-400:]
+        if delay_base:
+            run(["git", "apply", "-R", "--whitespace=nowarn", delay_base], wt)
         rc, o = run(["git", "apply", "--whitespace=nowarn", patch], wt)
         out["patch_applies"] = rc == 0
         if rc != 0:
@@ -66,9 +74,12 @@ def main():
                 rc, o = run(["go", "test", "-vet=off", "-count=1", "./..."], wt, 900)
                 ok += rc == 0
                 if rc != 0:
-                    out["suite_fail_tail"] = o[-600:]
+                    out["suite_fail_tail"] = "\n".join([l for l in o.splitlines() if "--- FAIL" in l or "panic" in l][:10]) + "\n" + o[-300:]
             out["suite_passes_with_patch"] = f"{ok}/2"
             shutil.copy(demo, dst)
+            if delay:
+                rc, o = run(["git", "apply", "--whitespace=nowarn", delay], wt)
+                out["delay_applies"] = rc == 0
             rc, o = run(["go", "test"] + race + ["-vet=off", "-count=1", "-run", runre, "./" + sub], wt, 600)
             out["demo_with_patch"] = "pass" if rc == 0 else "FAIL"
             out["demo_with_tail"] = o[-600:]
@@ -103,10 +114,15 @@ def main():
         os.makedirs(d, exist_ok=True)
         shutil.copy(patch, os.path.join(d, "patch.diff"))
         shutil.copy(demo, os.path.join(d, "demo_test.go"))
+        if delay:
+            shutil.copy(delay, os.path.join(d, "delay.patch"))
+        if delay_base:
+            shutil.copy(delay_base, os.path.join(d, "delay_baseline.patch"))
         m = dict(meta)
         m.update({"breaks_property": meta.get("property"), "needs_to_manifest": meta.get("needs_to_manifest"),
                   "what_i_ran": ["scratch worktree of /repo HEAD: demo passes without the patch; git apply; go build ./...; go test -vet=off -count=1 ./... (2x); demo fails with the patch",
                                  "git -C /repo apply patch.diff; bin/check -p all -json -no-selftest; git -C /repo checkout -- ."],
+                  "needs_race_detector": bool(race), "needs_delay_patch": bool(delay),
                   "validation": {k: out[k] for k in ("demo_without_patch", "suite_passes_with_patch", "demo_with_patch")},
                   "checks_fired": fired, "caught_by_own_property": out["caught_by_own_property"], "caught_by_any": out["caught_by_any"]})
         json.dump(m, open(os.path.join(d, "meta.json"), "w"), indent=1)
